@@ -3,13 +3,9 @@ import Aiortc.Lemmas.C05.V2Task
 namespace Aiortc.Sctp.V2
 open Aiortc.Gen Aiortc.Sctp.Wire
 set_option linter.unusedSimpArgs false
-variable {U : List Nat} {n : Nat}
+variable {U : List Nat}
 
 /-! ## adding a channel object / registering a stream id -/
-
-theorem pendingCh_snoc (chans : List Chan) (c : Chan) :
-    pendingCh (chans ++ [c]) = pendingCh chans + (if c.id.isNone then 1 else 0) := by
-  simp [pendingCh, List.countP_append, List.countP_cons]
 
 theorem ChansOk.snocChan {chans dcs q rcq} (h : ChansOk U chans dcs q rcq) {c : Chan}
     (hs : ∀ s, c.id = some s → s < 65536) : ChansOk U (chans ++ [c]) dcs q rcq := by
@@ -23,19 +19,6 @@ theorem ChansOk.snocChan {chans dcs q rcq} (h : ChansOk U chans dcs q rcq) {c : 
     rcases List.mem_append.mp hd with hd | hd
     · exact h.sid d hd s hds
     · simp at hd; subst hd; exact hs s hds
-
-/-- one more channel (pending or registered) for 12 bytes of slack -/
-theorem RoomOk.grow {chans chans' : List Chan} {dcs dcs' : List (Nat × Nat)} {rwnd : Int}
-    (h : RoomOk (n + 12) chans dcs rwnd) (hrw : rwnd ≤ 1048576)
-    (hc : pendingCh chans' + dcs'.length = pendingCh chans + dcs.length + 1) : RoomOk n chans' dcs' rwnd := by
-  have h1 := h.cap
-  have h2 := h.room
-  exact ⟨by omega, by rw [hc]; omega⟩
-
-theorem RoomOk.same {m : Nat} {chans chans' : List Chan} {dcs dcs' : List (Nat × Nat)} {rwnd : Int}
-    (h : RoomOk m chans dcs rwnd)
-    (hc : pendingCh chans' + dcs'.length = pendingCh chans + dcs.length) : RoomOk m chans' dcs' rwnd :=
-  ⟨by rw [hc]; exact h.cap, by rw [hc]; exact h.room⟩
 
 /-- What `createChannel` does to the state, in the three successful cases. -/
 inductive Created (e : Ep) (c : Chan) : Ep → Prop
@@ -51,28 +34,22 @@ inductive Created (e : Ep) (c : Chan) : Ep → Prop
   | negotiated (sid : Nat) : c.id = some sid → sid < 65536 → dictGet e.dataChannels sid = none →
       Created e c { e with chans := e.chans ++ [c], dataChannels := e.dataChannels ++ [(sid, e.chans.length)] }
 
-/-- Each of them keeps the invariant, for 12 bytes of slack. -/
-theorem WF.created {e e' : Ep} {c : Chan} (h : WF U (n + 12) e) (hrw : e.rwnd ≤ 1048576) (hc : Created e c e') :
-    WF U n e' := by
-  have h0 : WF U n e := h.mono (by omega)
+/-- Each of them keeps the invariant. -/
+theorem WF.created {e e' : Ep} {c : Chan} (h : WF U e) (hc : Created e c e') : WF U e' := by
   cases hc with
   | openPending d hid =>
     have hch : ChansOk U (e.chans ++ [c]) e.dataChannels e.dcQueue e.reconfigQueue :=
       h.ch.snocChan (by intro s hs; rw [hid] at hs; cases hs)
     refine ⟨h.net, hch.pushQ (by simp) (by simp [WEBRTC_DCEP]) (fun _ _ => Or.inl rfl), h.tx, h.rx, h.rcReq,
-      h.rcResp, h.sack, h.room.grow hrw ?_, h.ids, h.cap, h.tm1, h.tm2, ?_, h.rcr⟩
-    · rw [pendingCh_snoc]; simp [hid]; omega
-    · exact (h0.pushTask (t := .flush) trivial).tasks
+      h.rcResp, h.sack, h.ids, h.cap, h.tm1, h.tm2, ?_, h.rcr⟩
+    exact (h.pushTask (t := .flush) trivial).tasks
   | openId d sid hid hs hnew =>
-    refine ⟨h.net, h.ch.open hnew hs hid d, h.tx, h.rx, h.rcReq, h.rcResp, h.sack, h.room.grow hrw ?_, h.ids, h.cap,
+    refine ⟨h.net, h.ch.open hnew hs hid d, h.tx, h.rx, h.rcReq, h.rcResp, h.sack, h.ids, h.cap,
       h.tm1, h.tm2, ?_, h.rcr⟩
-    · rw [pendingCh_snoc]; simp [hid]; omega
-    · exact (h0.pushTask (t := .flush) trivial).tasks
+    exact (h.pushTask (t := .flush) trivial).tasks
   | negotiated sid hid hs hnew =>
     have hch := (h.ch.open hnew hs hid []).subQ (q' := e.dcQueue) (by intro x hx; simp [hx])
-    refine ⟨h.net, hch, h.tx, h.rx, h.rcReq, h.rcResp, h.sack, h.room.grow hrw ?_, h.ids, h.cap,
-      h.tm1, h.tm2, h.tasks, h.rcr⟩
-    rw [pendingCh_snoc]; simp [hid]; omega
+    exact ⟨h.net, hch, h.tx, h.rx, h.rcReq, h.rcResp, h.sack, h.ids, h.cap, h.tm1, h.tm2, h.tasks, h.rcr⟩
 
 /-- Parameters `createDataChannel` accepts without `struct.error`: label / protocol of < 65536 bytes, 32-bit
 reliability parameter, and a 16-bit id if the application picks one. -/
@@ -166,39 +143,35 @@ theorem wp_create {A} {p : CreateParams} {Q : Unit → St → Prop} {e : Ep} {l 
 
 /-- The invariant before `start()`: the association is closed, no timer runs, only flush tasks are queued, and
 everything else is already as `WF` wants it (`WF` holds as soon as `start()` has set its fields). -/
-structure Pre (U : List Nat) (n : Nat) (e : Ep) : Prop where
+structure Pre (U : List Nat) (e : Ep) : Prop where
   ns : e.started = false
   cl : e.assoc = .closed
   t1 : e.t1 = false
   tk : ∀ t ∈ e.tasks, t = .flush
-  wf : WF U n (startF e 0)
+  wf : WF U (startF e 0)
   acc : Acc 0 e.rwnd e.inStreams
   so : SidOk e.inStreams
 
-theorem Pre.created {e e' : Ep} {c : Chan} (h : Pre U (n + 12) e) (hc : Created e c e') : Pre U n e' := by
-  have hrw : e.rwnd ≤ 1048576 := by have := h.acc.acc; omega
+theorem Pre.created {e e' : Ep} {c : Chan} (h : Pre U e) (hc : Created e c e') : Pre U e' := by
   cases hc with
   | openPending d hid =>
-    refine ⟨h.ns, h.cl, h.t1, ?_, h.wf.created (e := startF e 0) hrw (Created.openPending d hid), h.acc, h.so⟩
+    refine ⟨h.ns, h.cl, h.t1, ?_, h.wf.created (e := startF e 0) (Created.openPending d hid), h.acc, h.so⟩
     intro t ht
     rcases List.mem_append.mp ht with ht | ht
     · exact h.tk t ht
     · simpa using ht
   | openId d sid hid hs hnew =>
-    refine ⟨h.ns, h.cl, h.t1, ?_, h.wf.created (e := startF e 0) hrw (Created.openId d sid hid hs hnew), h.acc, h.so⟩
+    refine ⟨h.ns, h.cl, h.t1, ?_, h.wf.created (e := startF e 0) (Created.openId d sid hid hs hnew), h.acc, h.so⟩
     intro t ht
     rcases List.mem_append.mp ht with ht | ht
     · exact h.tk t ht
     · simpa using ht
   | negotiated sid hid hs hnew =>
-    exact ⟨h.ns, h.cl, h.t1, h.tk, h.wf.created (e := startF e 0) hrw (Created.negotiated sid hid hs hnew), h.acc, h.so⟩
-
-theorem Pre.mono {m : Nat} {e : Ep} (h : Pre U n e) (hm : m ≤ n) : Pre U m e :=
-  ⟨h.ns, h.cl, h.t1, h.tk, h.wf.mono hm, h.acc, h.so⟩
+    exact ⟨h.ns, h.cl, h.t1, h.tk, h.wf.created (e := startF e 0) (Created.negotiated sid hid hs hnew), h.acc, h.so⟩
 
 /-- A flush task run before `start()` does nothing (the association is not established). -/
-theorem wp_runTask_pre {A} {Q : Unit → St → Prop} {e : Ep} {l : List Out} (h : Pre U n e)
-    (hq : ∀ e' l', Pre U n e' → Q () (e', l')) : wp A runTask Q (e, l) := by
+theorem wp_runTask_pre {A} {Q : Unit → St → Prop} {e : Ep} {l : List Out} (h : Pre U e)
+    (hq : ∀ e' l', Pre U e' → Q () (e', l')) : wp A runTask Q (e, l) := by
   unfold runTask
   simp only [wp_bind, wp_getE]
   split
@@ -217,13 +190,13 @@ theorem wp_runTask_pre {A} {Q : Unit → St → Prop} {e : Ep} {l : List Out} (h
       exact absurd (by simp [h.cl]) hne
 
 /-- `start()`: the client sends its INIT and arms T1; afterwards `WF` holds. -/
-theorem wp_start {A} {rp : Nat} {Q : Unit → St → Prop} {e : Ep} {l : List Out} (h : Pre U n e) (hr : rp < 65536)
-    (hq : ∀ e' l', WF U n e' → e'.rwnd = e.rwnd → e'.inStreams = e.inStreams → Q () (e', l')) :
+theorem wp_start {A} {rp : Nat} {Q : Unit → St → Prop} {e : Ep} {l : List Out} (h : Pre U e) (hr : rp < 65536)
+    (hq : ∀ e' l', WF U e' → e'.rwnd = e.rwnd → e'.inStreams = e.inStreams → Q () (e', l')) :
     wp A (handle (.start rp)) Q (e, l) := by
   have hrw : e.rwnd ≤ 1048576 := by have := h.acc.acc; omega
-  have hw0 : WF U n (startF e rp) :=
+  have hw0 : WF U (startF e rp) :=
     ⟨⟨h.wf.net.lp, ⟨rp, rfl, hr⟩, h.wf.net.rtag, h.wf.net.ltag, h.wf.net.inMax, h.wf.net.outCnt⟩, h.wf.ch, h.wf.tx,
-     h.wf.rx, h.wf.rcReq, h.wf.rcResp, h.wf.sack, h.wf.room, h.wf.ids, h.wf.cap, h.wf.tm1, h.wf.tm2, h.wf.tasks,
+     h.wf.rx, h.wf.rcReq, h.wf.rcResp, h.wf.sack, h.wf.ids, h.wf.cap, h.wf.tm1, h.wf.tm2, h.wf.tasks,
      h.wf.rcr⟩
   simp only [handle, wp_bind, wp_getE, h.ns, Bool.not_false, if_true, wp_setE]
   split
